@@ -56,6 +56,10 @@ def opClassify (args res : List String) : Verdict :=
   match args, res with
   | [h], [r] =>
     let inp := parseHexBytes h
+    -- the mode is observed through a build at level L: beyond the version-40 capacity of its class the build returns
+    -- the data-too-big error and there is no mode to observe
+    let cap := match modeStr (Spec.classify inp) with | "0" => 7089 | "1" => 4296 | _ => 2953
+    if r == "errE" ∧ inp.length > cap then {} else
     { spec := cmp "mode" (modeStr (Spec.classify inp)) r,
       model := cmp "mode" (modeStr (Model.bestEncoding inp)) r }
   | _, _ => { spec := some "bad-args" }
